@@ -551,7 +551,7 @@ def c03_instances(tier):
 _OP_NOTE = ("shapes/parameters concrete per instance, values and seeds symbolic integers in [-4,4] (divisors +-{1,2,4}); exp/ln/powf are "
             "the deterministic models of kani/math_models.c (A4); Rc::drop_slow stubbed (A3); A1 for the Verus units")
 PROPS.update({
-    "C02": {"level": "other", "verus": ["V3_roll_blocks_op", "V4b_flatten_slice", "V1_matmul_slice"],
+    "C02": {"level": "other", "verus": ["V3_roll_blocks_op", "V5_expand_conv", "V4b_flatten_slice", "V1_matmul_slice"],
             "kani_groups": ["h_elementwise.rs", "h_matmul.rs", "h_ops.rs", "h_conv.rs"], "instances": c02_instances,
             "technique": "Verus proofs of the gradient kernels (scatter-add of the unroll derivative, reduce-to-shape, matmul kernel) + bounded "
                          "Kani contract instances: op(x).backward(seed) against the transpose-Jacobian written out",
@@ -572,7 +572,7 @@ PROPS.update({
                           "1-2 passes, have the operand's dims and the summed values (first and later contributions).",
             "level_note": _OP_NOTE,
             "explanation": "flatten_slice contract proved for all shapes; call sites (flatten_to, backward's two arms) bounded."},
-    "C06": {"level": "other", "verus": ["V2_unroll_blocks_op", "V1_matmul_slice", "V4a_slice_offset"],
+    "C06": {"level": "other", "verus": ["V2_unroll_blocks_op", "V5_expand_conv", "V1_matmul_slice", "V4a_slice_offset"],
             "kani_groups": ["h_conv.rs"], "instances": c06_instances,
             "technique": "Verus proofs of the im2col gather map, the matmul kernel and the batch slice offset + bounded Kani instances of conv "
                          "against the direct sliding-window sum",
@@ -819,7 +819,7 @@ PROPS.update({
                           "`children` (audit). The training-loop clause (model moved on to its next iteration) is covered only through C14's instances.",
             "level_note": "no drop stub in these instances; graph size <= 5 nodes", "explanation": "Bounded release contract with real drop semantics."},
     "C19": {"level": "other", "floats": ["f32"], "kani_features": [["f32"]],
-            "verus": ["V1_matmul_slice", "V2_unroll_blocks_op", "V3_roll_blocks_op", "V4a_slice_offset", "V4b_flatten_slice"],
+            "verus": ["V1_matmul_slice", "V2_unroll_blocks_op", "V3_roll_blocks_op", "V4a_slice_offset", "V4b_flatten_slice", "V5_expand_conv"],
             "kani_groups": ["h_elementwise.rs", "h_matmul.rs", "h_ops.rs", "h_conv.rs", "h_construct.rs", "h_graph.rs", "h_tracking.rs", "h_model.rs"],
             "instances": c19_instances,
             "technique": "re-verification under the f32 feature: all Verus units with Float = f32, a cross-section of the Kani instances built with "
